@@ -139,6 +139,31 @@ func mapTemplates() []string {
 	}
 }
 
+// every built-in filter and function handed a hash (literal and from the context) as argument, on a
+// string, a list and a map: whatever the filter does with it — including failing — must not depend
+// on the order in which the hash is iterated
+func hashArgTemplates() []string {
+	filters := []string{"replace", "merge", "default", "join", "split", "format", "slice", "number_format", "round", "trim", "batch", "map", "filter", "column", "first", "last", "keys", "sort", "reverse", "length", "json_encode", "url_encode", "escape", "striptags", "nl2br", "title", "capitalize", "upper", "lower", "abs", "raw", "spaceless"}
+	var out []string
+	for _, f := range filters {
+		out = append(out,
+			"{{ 'ab'|"+f+"({'a': 'b', 'b': 'a'}) }}",
+			"{{ 'red teal blue'|"+f+"({'red': 'blu', 'blu': 'RED', 'tea': 'red'}) }}",
+			"{{ 'ab'|"+f+"(m) }}",
+			"{{ ['a', 'b']|"+f+"({'a': 'b', 'b': 'a'})|json_encode|raw }}",
+			"{{ m|"+f+"(m2)|json_encode|raw }}",
+			"{{ m|"+f+"({'x': 'y', 'y': 'x'}, m2)|json_encode|raw }}",
+		)
+	}
+	for _, fn := range []string{"max", "min", "merge", "cycle", "range", "dump", "length", "json_encode", "random", "date", "attribute", "include"} {
+		if fn == "random" || fn == "date" {
+			continue
+		}
+		out = append(out, "{{ "+fn+"(m)|json_encode|raw }}", "{{ "+fn+"({'b': 2, 'a': 1, 'c': 3})|json_encode|raw }}", "{{ "+fn+"(m, m2)|json_encode|raw }}")
+	}
+	return out
+}
+
 func nestedTemplates() []string {
 	return []string{
 		"{% for k, v in m %}{{ k }}:{% for k2, v2 in v %}{{ k2 }}{{ v2 }}{% endfor %};{% endfor %}",
@@ -195,6 +220,11 @@ func allCases(thorough bool) []tcase {
 			cs = append(cs, tcase{Group: "map/" + n, Tpl: tp, Extra: extra, Ctx: n, mk: mk[n]})
 		}
 	}
+	for _, n := range []string{"untyped3", "untyped4", "typedStrInt"} {
+		for _, tp := range hashArgTemplates() {
+			cs = append(cs, tcase{Group: "hasharg/" + n, Tpl: tp, Extra: extra, Ctx: n, mk: mk[n]})
+		}
+	}
 	for _, tp := range literalTemplates() {
 		cs = append(cs, tcase{Group: "literal", Tpl: tp, Extra: extra, Ctx: "empty", mk: func() map[string]interface{} { return map[string]interface{}{} }})
 	}
@@ -203,9 +233,14 @@ func allCases(thorough bool) []tcase {
 		n, s, f := 7, "str", 2.5
 		l := []interface{}{1, 2}
 		m := map[string]interface{}{"a": 1}
-		return map[string]interface{}{"pi": &n, "ps": &s, "pf": &f, "pl": &l, "pm": &m, "lst": []interface{}{&n, &s}, "mp": map[string]interface{}{"k": &n}}
+		pn := &n
+		var ip interface{} = &n
+		var is interface{} = &s
+		return map[string]interface{}{"pi": &n, "ps": &s, "pf": &f, "pl": &l, "pm": &m, "lst": []interface{}{&n, &s}, "mp": map[string]interface{}{"k": &n},
+			"ppi": &pn, "pip": &ip, "pis": &is, "lpp": []interface{}{&pn, &ip}}
 	}
-	for _, tp := range []string{"{{ pi }}", "{{ ps }}", "{{ pf }}", "{{ pl|join(',') }}", "{{ pm|keys|join(',') }}", "{{ lst|join(',') }}", "{% for x in lst %}{{ x }}{% endfor %}", "{{ mp.k }}", "{{ pi ~ ps }}", "{{ pi + 1 }}", "{{ lst|json_encode|raw }}", "{{ lst|first }}"} {
+	for _, tp := range []string{"{{ pi }}", "{{ ps }}", "{{ pf }}", "{{ pl|join(',') }}", "{{ pm|keys|join(',') }}", "{{ lst|join(',') }}", "{% for x in lst %}{{ x }}{% endfor %}", "{{ mp.k }}", "{{ pi ~ ps }}", "{{ pi + 1 }}", "{{ lst|json_encode|raw }}", "{{ lst|first }}",
+		"{{ ppi }}", "{{ pip }}", "{{ pis }}", "{{ ppi ~ '|' ~ pip }}", "{{ lpp|join(',') }}", "{% for x in lpp %}{{ x }}{% endfor %}", "{{ ppi + 1 }}"} {
 		cs = append(cs, tcase{Group: "pointer", Tpl: tp, Ctx: "pointers", mk: ptrCtx})
 	}
 	structCtx := func() map[string]interface{} {
